@@ -9,4 +9,6 @@ CONSTANTS
   WithMigration = TRUE
   EmptyTableAtStart = FALSE
   AtomicAsk = FALSE
+  WithFailover = FALSE
+  FixRefreshOnDialError = TRUE
 CHECK_DEADLOCK FALSE
